@@ -183,10 +183,47 @@ def bern_replay(c):
     return boolrows(torch.bernoulli(ein.repeat(p, "... -> t ...", t=int(c["steps"])), generator=g).bool(), n)
 
 
+def probes():
+    """side observations about the encoder classes that are outside the C19 statement (reported in the
+    evidence, never as failures): setter paths and constructor validation"""
+    out = {}
+
+    def attempt(name, f):
+        try:
+            f()
+            out[name] = "ok"
+        except Exception as e:  # noqa
+            out[name] = f"{type(e).__name__}: {e}"[:160]
+
+    def approx_freq():
+        e = HomogeneousPoissonApproxEncoder(5, 1.0, 100.0)
+        e.frequency = 50.0
+
+    def refrac_none():
+        e = HomogeneousPoissonEncoder(5, 1.0, 100.0, refrac=2.0)
+        e.refrac = None
+
+    def ctor_out_of_domain():
+        HomogeneousPoissonEncoder(4, 1.0, 2000.0, refrac=2.0, compensate=True)
+
+    def setter_out_of_domain():
+        e = HomogeneousPoissonEncoder(4, 1.0, 100.0, refrac=2.0, compensate=True)
+        e.frequency = 2000.0
+
+    attempt("HomogeneousPoissonApproxEncoder.frequency = 50.0", approx_freq)
+    attempt("HomogeneousPoissonEncoder.refrac = None", refrac_none)
+    attempt("HomogeneousPoissonEncoder(frequency=2000, refrac=2, compensate=True) [constructor]", ctor_out_of_domain)
+    attempt("HomogeneousPoissonEncoder.frequency = 2000 with refrac=2, compensate=True [setter]", setter_out_of_domain)
+    return out
+
+
 def handler(payload):
     if payload.get("mode") == "bern":
         return [bern_replay(c) for c in payload["cases"]]
-    return [run_case(c) for c in payload["cases"]]
+    res = [run_case(c) for c in payload["cases"]]
+    if payload.get("probes"):
+        res.append({"probes": probes()})
+    return res
 
 
 if __name__ == "__main__":
